@@ -18,7 +18,8 @@ const char *MUTS[] = {"Hputelement-new", "Hputelement-existing", "Hstartwrite", 
                       "ANwriteann", "Vsetclass-on-r", "VSsetname-on-r", "Hsync", "Hcache", "Vattach-w-while-r", "VSattach-w-while-r",
                       // appended later (indices of stored plans stay valid)
                       "VSsetclass-on-r", "VSfdefine-on-r", "VSsetinterlace-on-r", "VSsetexternalfile-on-r", "Vdeletetagref-on-r",
-                      "Vinsert-on-r", "SDsetdimstrs", "SDsetnbitdataset", "SDsetdimval_comp", "GRsetexternalfile", "GRsetchunk"};
+                      "Vinsert-on-r", "SDsetdimstrs", "SDsetnbitdataset", "SDsetdimval_comp", "GRsetexternalfile", "GRsetchunk",
+                      "SDwritechunk", "GRwritechunk"};
 const int   NMUT   = sizeof MUTS / sizeof MUTS[0];
 
 // Mutators kept out of the search unless knob unguard_ro_api=1 is set.  Empty: the sixteen mutators that read-only
@@ -153,6 +154,17 @@ struct ReadOnly : Profile {
                 ci.deflate.level = 1;
                 res              = SDsetcompress(id, COMP_CODE_DEFLATE, &ci) == FAIL;
             }
+            else if (n == "SDwritechunk") {
+                HDF_CHUNK_DEF cd;
+                int32         fl = 0, org[H4_MAX_VAR_DIMS] = {0};
+                memset(&cd, 0, sizeof cd);
+                if (SDgetchunkinfo(id, &cd, &fl) == FAIL || fl == HDF_NONE)
+                    res = -1; // not a chunked dataset
+                else {
+                    std::vector<uint8_t> cb(65536, 3);
+                    res = SDwritechunk(id, org, cb.data()) == FAIL;
+                }
+            }
             else if (n == "SDsetchunk") {
                 HDF_CHUNK_DEF cd;
                 memset(&cd, 0, sizeof cd);
@@ -199,6 +211,17 @@ struct ReadOnly : Profile {
                 std::vector<uint8_t> lut(768, 7);
                 int32                l = GRgetlutid(ri, 0);
                 res                    = l == FAIL ? -1 : GRwritelut(l, 3, DFNT_UINT8, MFGR_INTERLACE_PIXEL, 256, lut.data()) == FAIL;
+            }
+            else if (n == "GRwritechunk") {
+                HDF_CHUNK_DEF cd;
+                int32         fl = 0, org[2] = {0, 0};
+                memset(&cd, 0, sizeof cd);
+                if (GRgetchunkinfo(ri, &cd, &fl) == FAIL || fl == HDF_NONE)
+                    res = -1;
+                else {
+                    std::vector<uint8_t> cb(65536, 3);
+                    res = GRwritechunk(ri, org, cb.data()) == FAIL;
+                }
             }
             else if (n == "GRsetexternalfile")
                 res = GRsetexternalfile(ri, "/sim/ro_grext.dat", 0) == FAIL;
